@@ -229,26 +229,27 @@ def r3b_payload_paths(report, repo):
   def sp(v, p):
     if p.end != 'exit':
       return None
-    rebind = [i for i, (n, _) in enumerate(p.steps) if n.kind == 'stmt' and
-              isinstance(n.ast, ast.Assign) and core.is_name(
-                  n.ast.targets[0], 'timeout')]
-    dataw = [i for i, (n, _) in enumerate(p.steps) if any(
-        isinstance(s_, ast.Call) and call_name(s_) == 'self._transport.write'
-        and any((dotted(a) or '').endswith('.data') for a in s_.args)
-        for s_ in n.subnodes())]
+    dataw = [(i, s_) for i, (n, _) in enumerate(p.steps) for s_ in n.subnodes()
+             if isinstance(s_, ast.Call) and
+             call_name(s_) == 'self._transport.write' and any(
+                 (dotted(a) or '').endswith('.data') for a in s_.args)]
     if len(dataw) != 1:
       return 'payload-row: the payload is written %d times' % len(dataw)
+    di, dw = dataw[0]
+    # the timeout the payload write is given, as it stands on this path
+    targ = dw.args[1] if len(dw.args) > 1 else None
+    base = targ.value if isinstance(targ, ast.Attribute) else targ
+    tval = cfgm.path_resolve(p, base, before_index=di) if base is not None \
+        else None
+    tparam = lib.param_names(f.node)[2]
     if v['expired']:
-      if len(rebind) != 1 or rebind[0] > dataw[0]:
-        return ('expired-row: when the timeout expired after the header, the '
-                'payload must still be sent with a fresh (non-zero) timeout')
-      val = p.steps[rebind[0]][0].ast.value
-      ok = isinstance(val, ast.Call) and last_attr(val) in (
-          'from_millis', 'from_seconds') and val.args and isinstance(
-              val.args[0], ast.Constant) and val.args[0].value > 0
+      ok = isinstance(tval, ast.Call) and last_attr(tval) in (
+          'from_millis', 'from_seconds') and tval.args and isinstance(
+              tval.args[0], ast.Constant) and tval.args[0].value > 0
       if not ok:
-        return 'expired-row: the replacement timeout is not a positive constant'
-    elif rebind:
+        return ('expired-row: when the timeout expired after the header, the '
+                'payload must still be sent with a fresh positive timeout')
+    elif not core.is_name(tval, tparam):
       return 'normal-row: the caller\'s timeout is replaced although not expired'
     return None
 
@@ -373,11 +374,16 @@ def r4_validation(report, repo):
   t = repo.func(AM, 'RawAdbMessage.to_adb_message')
   par = lib.param_names(t.node)[1]
 
+  msgv = lib.local_from(t, lib.calls(attr='AdbMessage'), 'message')
+
   def classify(expr, steps):
     if isinstance(expr, ast.Compare) and len(expr.ops) == 1:
       l, r, op = expr.left, expr.comparators[0], expr.ops[0]
       sides = {norm(l), norm(r)}
-      if sides == {'len(%s)' % par, 'self.data_length'}:
+      # the payload, as the parameter or as the field of the message built
+      # from it
+      if sides in ({'len(%s)' % par, 'self.data_length'},
+                   {'len(%s.data)' % msgv, 'self.data_length'}):
         if isinstance(op, ast.NotEq):
           return 'len_bad'
         if isinstance(op, ast.Eq):
